@@ -132,6 +132,23 @@ var c10Crits = map[string]c10Crit{
 	"empty":  {"{}", func(any) string { return "E" }},
 	"one":    {"1", func(any) string { return "T" }},
 	"exists": {"$this.exists()", func(any) string { return "T" }},
+	// the item itself as criterion: a System Boolean or a FHIR boolean element decides by
+	// its value (other items are left to C06)
+	"thisBool": {"$this", func(x any) string {
+		switch b := x.(type) {
+		case system.Boolean:
+			if bool(b) {
+				return "T"
+			}
+			return "F"
+		case *dtpb.Boolean:
+			if b.GetValue() {
+				return "T"
+			}
+			return "F"
+		}
+		return "n/a"
+	}},
 	"gt1": {"$this > 1", func(x any) string {
 		if r, ok := numOfItem(x); ok {
 			if r.Cmp(big.NewRat(1, 1)) > 0 {
@@ -250,7 +267,7 @@ func c10GenVals(s Src, n int) []Val {
 		{iv(1), iv(2), iv(3), dv("1.0"), dv("2.0"), dv("2.5"), iv(1), fv("integer", "1"), fv("decimal", "2.50"), fv("positiveInt", "3")},
 		{sv("a"), sv("b"), sv("é"), sv("ab"), sv(""), sv("a"), fv("string", "a"), fv("code", "b"), sv("B")},
 		{dateV("2020"), dateV("2020-01"), dateV("2020-01-01"), dateV("2020-01"), dtV("2020-01-01T"), dtV("2020-01-01T10:00:00Z"), dtV("2020-01-01T15:30:00+05:30"), timeV("10:00"), timeV("10:00:00")},
-		{bv(true), bv(false), bv(true), fv("boolean", "true")},
+		{bv(true), bv(false), bv(true), fv("boolean", "true"), fv("boolean", "false"), fv("boolean", "false")},
 		{qv("1", "mg"), qv("1.0", "mg"), qv("1", "kg"), qv("2", "mg"), qv("1", "mg")},
 		poolComplex,
 	}
